@@ -13,7 +13,7 @@ soup.  Three consumers look at the same damaged copy: the streaming reader
 
 from dsim import gen, pipe
 from dsim import refmodel as R
-from dsim.actors import LOAD_STREAMS
+from dsim.actors import LOAD_STREAMS, exc_summary
 
 ID = 'C08'
 LEVEL = 'exploration'
@@ -59,6 +59,8 @@ HOSTILE = {
     'version': ['2.0', '1', '1.0', 'abc', '5'],
     'type': ['binary', 'text', 'x', '5', '7' * 4400],
     'mimetype': ['text/html', 'x', '5'],
+    # header lines longer than one read-ahead block
+    'x-pad': ['y' * 100, 'y' * 250],
 }
 HOSTILE_KEYS = ['files', 'changes', 'options', 'meta', 'preamble', 'diff',
                 '_level', 'section_id', 'subsections', 'content', 'add_file',
@@ -152,6 +154,9 @@ def consumers(rng, read_error=None):
 
     if rng.chance(0.1):
         r['shadow'] = rng.below(50)
+
+    if rng.chance(0.12) and read_error is None:
+        r['again'] = True
 
     cs = [r, {'id': 'D1', 'kind': 'dom_load', 'file': 'f1',
               'via': 'from_bytes'},
@@ -325,6 +330,38 @@ def execute(scn, L):
                     r_state = 'pe@%s' % ei['func']
             else:
                 r_state = 'eof'
+
+            if a.spec.get('again') and a.end in ('eof', 'raise') and \
+               not any(f['kind'] in ('read_error', 'seek_error',
+                                     'nonseekable')
+                       for f in scn.get('faults', ())):
+                # the same reader object, rewound and iterated again after
+                # the pass that has just ended (failed ones included): the
+                # same answer, and never another kind of exception
+                from dsim.actors import read_twice
+                from dsim.world import World
+                w2 = World(scn, L)
+                recs2, end2, exc2 = read_twice(
+                    w2, a.data, block_size=a.spec.get('block_size'),
+                    actor='R-again', stream=a.spec.get('stream', 'sim'),
+                    buf=a.spec.get('buf'))
+                out.absorb(w2)
+                out.probe('reader_iterated_again_after_' + a.end)
+
+                if end2 in ('cap', 'hang'):
+                    out.violate('C08.no-termination', 'reader-again:' + end2,
+                                {'len': len(a.data)})
+                elif end2 == 'raise' and \
+                        not exc_summary(exc2, L)['parse_error']:
+                    ei2 = exc_summary(exc2, L)
+                    out.violate('C08.reader-other-exception',
+                                '%s:%s:second-pass' % (ei2['type'],
+                                                       ei2['func']),
+                                {'exc': ei2, 'fault_class': fclass})
+                elif end2 != a.end or len(recs2) != len(a.records):
+                    out.violate('C08.second-pass-differs', '%s/%d-vs-%s/%d'
+                                % (a.end, len(a.records), end2, len(recs2)),
+                                {'fault_class': fclass})
 
             for rec in a.records:
                 if not isinstance(rec, dict):
